@@ -18,7 +18,7 @@ import traceback
 from typing import Any
 
 ROOT = os.path.dirname(os.path.dirname(os.path.abspath(__file__)))
-EVIDENCE_DIR = os.path.join(ROOT, "evidence")
+EVIDENCE_DIR = os.environ.get("VERIF_EVIDENCE_DIR") or os.path.join(ROOT, "evidence")
 REPLAY_DIR = os.path.join(ROOT, "replays")
 KNOWN_FILE = os.path.join(ROOT, "known_findings.json")
 NPROC = int(os.environ.get("VERIF_PROCS", "16"))
